@@ -92,10 +92,12 @@ Range(s) == {s[i] : i \in 1..Len(s)}
 Unique(s) == \A i, j \in 1..Len(s) : i # j => s[i] # s[j]
 
 \* ValidateLogConfigs (one backend): all valid, non-empty unique prefixes, unique tree IDs
-ValidSet(logs) ==
-  /\ \A i \in 1..Len(logs) : Valid(logs[i]) /\ logs[i].prefix # ""
-  /\ Unique([i \in 1..Len(logs) |-> logs[i].prefix])
-  /\ Unique([i \in 1..Len(logs) |-> logs[i].logId])
+SetClauses(logs) ==
+  [logs     |-> \A i \in 1..Len(logs) : Valid(logs[i]),
+   prefixes |-> /\ \A i \in 1..Len(logs) : logs[i].prefix # ""
+                /\ Unique([i \in 1..Len(logs) |-> logs[i].prefix]),
+   treeIds  |-> Unique([i \in 1..Len(logs) |-> logs[i].logId])]
+ValidSet(logs) == LET k == SetClauses(logs) IN \A f \in DOMAIN k : k[f]
 
 \* uniquely named backends with unique non-empty specifications
 BackendsOK(bs) ==
@@ -105,12 +107,14 @@ BackendsOK(bs) ==
 
 \* ValidateLogMultiConfig.  m = [bPresent, backends, lPresent, logs]
 \* (named) AbsentIsEmpty: an absent Backends / LogConfigs message is the empty set; the conjuncts then hold vacuously
-ValidMulti(m) ==
-  /\ BackendsOK(m.backends)
-  /\ \A i \in 1..Len(m.logs) : Valid(m.logs[i]) /\ m.logs[i].prefix # ""
-  /\ Unique([i \in 1..Len(m.logs) |-> m.logs[i].prefix])                                    \* prefixes unique globally
-  /\ \A i \in 1..Len(m.logs) : \E j \in 1..Len(m.backends) : m.backends[j].name = m.logs[i].backendName
-  /\ Unique([i \in 1..Len(m.logs) |-> <<m.logs[i].backendName, m.logs[i].logId>>])          \* tree IDs unique per backend
+MultiClauses(m) ==
+  [backends |-> BackendsOK(m.backends),
+   logs     |-> \A i \in 1..Len(m.logs) : Valid(m.logs[i]),
+   prefixes |-> /\ \A i \in 1..Len(m.logs) : m.logs[i].prefix # ""
+                /\ Unique([i \in 1..Len(m.logs) |-> m.logs[i].prefix]),                         \* unique globally
+   refs     |-> \A i \in 1..Len(m.logs) : \E j \in 1..Len(m.backends) : m.backends[j].name = m.logs[i].backendName,
+   treeIds  |-> Unique([i \in 1..Len(m.logs) |-> <<m.logs[i].backendName, m.logs[i].logId>>])]  \* unique per backend
+ValidMulti(m) == LET k == MultiClauses(m) IN \A f \in DOMAIN k : k[f]
 
 \* (named) LoaderRefusesEmpty: LogConfigFromFile / MultiLogConfigFromFile refuse a file without log configs
 \* (and, for the multi form, without backends) before validation is reached
